@@ -1,6 +1,6 @@
 (* Property C14 — name order, equality, prefix, hash and URI form are mutually consistent.
    Only theorem statements closed by `exact`, each followed by Print Assumptions. *)
-From Names Require Import Model Order Uri.
+From Names Require Import Model Order Uri Dec UriRt Wire.
 Open Scope N_scope.
 
 (* Comparison is a total order ... *)
@@ -50,7 +50,74 @@ Theorem parse_total : forall s, name_from_str s <> PPanic.
 Proof. exact name_from_str_nopanic. Qed.
 Print Assumptions parse_total.
 
+(* ... also for single components and for the pattern parsers (ComponentFromStr, ComponentPatternFromStr,
+   NamePatternFromStr); every unchecked indexing/slicing of the Go code is a PPanic branch of the model *)
+Theorem parse_total_all : forall s,
+  name_from_str s <> PPanic /\ comp_from_str s <> PPanic /\
+  comp_pattern_from_str s <> PPanic /\ name_pattern_from_str s <> PPanic.
+Proof.
+  exact (fun s => conj (name_from_str_nopanic s) (conj (comp_from_str_nopanic s)
+                 (conj (comp_pattern_from_str_nopanic s) (name_pattern_from_str_nopanic s)))).
+Qed.
+Print Assumptions parse_total_all.
+
+(* the guard added by /repo commit 2e94774 is needed: without it the model of NamePatternFromStr panics on "" *)
+Theorem pattern_parse_unguarded_refuted : exists s, name_pattern_from_str_unguarded s = PPanic.
+Proof. exact (ex_intro _ [] name_pattern_unguarded_panics). Qed.
+Print Assumptions pattern_parse_unguarded_refuted.
+
+(* Converting to a URI string and parsing back returns the same name for every name whose component types lie in
+   1..65535 and whose numeric-convention components are in shortest form.
+   uri_wf n = every component c has 1 <= ctyp c <= 65535, byte values, and if ctyp c is a decimal-format
+   convention (50,52,54,56,58) then cval c = nat_enc x for some x < 2^64.  Value lengths are unrestricted. *)
+Theorem uri_roundtrip : forall n, uri_wf n -> name_from_str (name_to_str n) = POk n.
+Proof. exact name_str_rt. Qed.
+Print Assumptions uri_roundtrip.
+
+(* the decidable form of the domain used by the runner's oracle is the same predicate *)
+Theorem uri_wfb_correct : forall n, uri_wfb n = true <-> uri_wf n.
+Proof. exact uri_wfb_spec. Qed.
+Print Assumptions uri_wfb_correct.
+
+(* CanonicalString output is accepted by ComponentFromStr and gives the component back, with no condition on
+   numeric conventions; and whatever ComponentFromStr returns is a fixed point of print-canonical-then-parse *)
+Theorem canon_roundtrip :
+  (forall c, comp_canon_wf c -> comp_from_str (comp_to_canon c) = POk c) /\
+  (forall s c, bytes_ok s -> comp_from_str s = POk c -> comp_from_str (comp_to_canon c) = POk c).
+Proof. exact (conj (fun c H => proj1 (comp_canon_rt c H)) canon_parse_stable). Qed.
+Print Assumptions canon_roundtrip.
+
+(* Component.String (the key of the engine trie and of the memory store) is injective on the round-trip domain ... *)
+Theorem comp_to_str_injective_on_wf : forall c d, comp_uri_wf c -> comp_uri_wf d -> comp_to_str c = comp_to_str d -> c = d.
+Proof. exact comp_to_str_inj. Qed.
+Print Assumptions comp_to_str_injective_on_wf.
+(* ... and not outside it: 50:[00 05] and 50:[05] both print as "seg=5" (reported in the notes; it concerns the tables
+   keyed by String(), not the statement of C14, whose round trip is restricted to shortest-form components) *)
+Theorem comp_to_str_injective_refuted : exists c d, c <> d /\ ctyp c = ctyp d /\ comp_to_str c = comp_to_str d.
+Proof. exact comp_to_str_not_injective. Qed.
+Print Assumptions comp_to_str_injective_refuted.
+
+(* The canonical order of components (and of names) is the bytewise order of their wire encodings *)
+Theorem compare_matches_wire_order :
+  (forall c d, comp_wf c -> comp_wf d -> comp_cmp c d = bytes_cmp (comp_enc c) (comp_enc d)) /\
+  (forall a b, Forall comp_wf a -> Forall comp_wf b -> name_cmp a b = bytes_cmp (name_inner a) (name_inner b)).
+Proof. exact (conj comp_cmp_wire name_cmp_wire). Qed.
+Print Assumptions compare_matches_wire_order.
+
+(* Structural remark, not a violation (the statement asks only equal names => equal hashes): component boundaries
+   are not delimited in the hash input, so two different well-formed names feed the same bytes to the hasher. *)
+Theorem hash_input_not_injective : exists a b : name,
+  a <> b /\ Forall comp_wf a /\ Forall comp_wf b /\ name_hash_input a = name_hash_input b.
+Proof. exact Wire.hash_input_not_injective. Qed.
+Print Assumptions hash_input_not_injective.
+
 (* non-vacuity *)
+Example c14_example_uri :
+  uri_wf [mkc 8 [97; 47; 37]; mkc 8 []; mkc 50 [1;0]; mkc 1 [171]; mkc 300 [46]; mkc 8 []] /\
+  name_to_str [mkc 8 [97; 47; 37]; mkc 8 []; mkc 50 [1;0]; mkc 1 [171]; mkc 300 [46]; mkc 8 []]
+    = [47;97;37;50;70;37;50;53; 47; 47;115;101;103;61;50;53;54; 47;115;104;97;50;53;54;100;105;103;101;115;116;61;97;98; 47;51;48;48;61;46; 47; 47].
+Proof. split; [apply uri_wfb_spec; vm_compute; reflexivity|vm_compute; reflexivity]. Qed.
+
 Example c14_example :
   name_wf [mkc 8 [97]; mkc 50 [1;0]] /\ name_cmp [mkc 8 [97]] [mkc 8 [97]; mkc 50 [1;0]] = Lt /\
   name_from_str [47;97;47;115;101;103;61;50;53;54] = POk [mkc 8 [97]; mkc 50 [1;0]].
